@@ -192,6 +192,19 @@ func (d *evDriver) put(ok bool, size int) {
 	d.reqs = append(d.reqs, evReq{Op: "put", B: b, OK: r.OK(), Keys: []evKey{{K: k, OK: r.OK(), Size: int64(size), Etag: s3c.MD5Hex(body), Vid: "-"}}, Note: r.String()})
 }
 
+// putStreamed uploads with an aws-chunked body (the transferred length differs from the
+// object's length).
+func (d *evDriver) putStreamed(size int) {
+	k := d.key()
+	body := d.body(k, size)
+	mode, trailer := s3c.StreamUnsignedTrl, "crc32"
+	if d.n%2 == 0 {
+		mode, trailer = s3c.StreamSigned, ""
+	}
+	r := d.cl.Do(s3c.Req{Method: "PUT", Path: "/" + d.b + "/" + s3c.EncPath(k), Body: body, Mode: mode, Trailer: trailer, Chunks: []int{len(body)/3 + 1, len(body)/3 + 1, len(body)}})
+	d.reqs = append(d.reqs, evReq{Op: "put", B: d.b, OK: r.OK(), Keys: []evKey{{K: k, OK: r.OK(), Size: int64(len(body)), Etag: s3c.MD5Hex(body), Vid: "-"}}, Note: r.String()})
+}
+
 func (d *evDriver) copyObj(ok bool, size int) {
 	if d.shape == 3 {
 		d.shape = 1 // (data cannot be copied onto a directory object)
@@ -402,7 +415,7 @@ func attribute(reqs []evReq, evs []evDelivered, filter map[string]any) ([]evLine
 }
 
 func C19(c *core.Ctx, replay string) {
-	c.Rule = "Programs of succeeding and failing object-changing requests (put, copy, multipart completion, delete, batch delete with a per-key failure, put/delete tagging; keys plain, nested, with characters that need encoding, and directory objects; in a versioned bucket a batch delete by version id with an entry naming a version that does not exist) run against a real gateway whose real webhook sender posts to the harness's collector, sequentially, with 16 concurrent clients, under several event-filter files (two of them with an entry that contradicts the wildcard of its family, each loaded by several freshly started gateways), and in a gated schedule in which a notification is held before serialisation while the next request reuses the request context. Each request's outcome with the notifications attributed to it (by key) is one trace line validated by TLC against EventPipe's rule (exactly one right event per affected key, none for failures, filter applied). TLC also model-checks the pipeline model (record built from the pooled context, serialised later). Non-trivial: a request that failed, a batch, or a request under a filter."
+	c.Rule = "Programs of succeeding and failing object-changing requests (put, copy, multipart completion, delete, streamed (aws-chunked) put, batch delete with a per-key failure, four batch deletes at the same moment on buckets of their own, put/delete tagging; keys plain, nested, with characters that need encoding, and directory objects; in a versioned bucket a batch delete by version id with an entry naming a version that does not exist) run against a real gateway whose real webhook sender posts to the harness's collector, sequentially, with 16 concurrent clients, under several event-filter files (two of them with an entry that contradicts the wildcard of its family, each loaded by several freshly started gateways), and in a gated schedule in which a notification is held before serialisation while the next request reuses the request context. Each request's outcome with the notifications attributed to it (by key) is one trace line validated by TLC against EventPipe's rule (exactly one right event per affected key, none for failures, filter applied). TLC also model-checks the pipeline model (record built from the pooled context, serialised later). Non-trivial: a request that failed, a batch, or a request under a filter."
 	c.Assumptions = []string{"events are attributed to requests by object key (keys are unique per request)", "quiescence = no notification for 400 ms"}
 	for _, sw := range []string{"TRUE", "FALSE"} {
 		res, err := tlc.Run(c.Scratch, tlc.Opts{Module: "EventPipe", Workers: 1,
@@ -477,6 +490,9 @@ func C19(c *core.Ctx, replay string) {
 				d.del(sz)
 			}
 			d.shape = (r + fi) % 4
+			if d.shape != 3 {
+				d.putStreamed(sz + 1000)
+			}
 			d.put(true, sz)
 			d.put(false, sz)
 			d.copyObj(true, sz)
@@ -558,6 +574,52 @@ func C19(c *core.Ctx, replay string) {
 			}
 			d.reqs = append(d.reqs, req)
 			co.quiesce(1500 * time.Millisecond)
+			// (2c) four batch deletes at the same moment, each on a bucket of its own: the
+			// notifications of one request must not be disturbed by those of another
+			{
+				const nbk, nk = 4, 20
+				var bwg sync.WaitGroup
+				breqs := make([]evReq, nbk)
+				for bi := 0; bi < nbk; bi++ {
+					bn := fmt.Sprintf("evbatch%d", bi)
+					CreateBucket(env.Root, bn)
+					for i := 0; i < nk; i++ {
+						k := fmt.Sprintf("bd-%d-%02d", bi, i)
+						body := Content("ev-"+k, 30+i)
+						r := PutObject(env.Root, bn, k, body)
+						d.reqs = append(d.reqs, evReq{Op: "put", B: bn, OK: r.OK(), Keys: []evKey{{K: k, OK: r.OK(), Size: int64(len(body)), Etag: s3c.MD5Hex(body), Vid: "-"}}})
+					}
+				}
+				co.quiesce(500 * time.Millisecond)
+				for bi := 0; bi < nbk; bi++ {
+					bwg.Add(1)
+					go func(bi int) {
+						defer bwg.Done()
+						bn := fmt.Sprintf("evbatch%d", bi)
+						var ks []string
+						for i := 0; i < nk; i++ {
+							ks = append(ks, fmt.Sprintf("bd-%d-%02d", bi, i))
+						}
+						r := DeleteObjects(env.Root, bn, ks...)
+						req := evReq{Op: "deleteobjects", B: bn, OK: r.OK(), Note: r.String()}
+						deleted := map[string]bool{}
+						if r.OK() {
+							var dr delResult
+							xmlUnmarshal(r.Body, &dr)
+							for _, x := range dr.Deleted {
+								deleted[x.Key] = true
+							}
+						}
+						for _, k := range ks {
+							req.Keys = append(req.Keys, evKey{K: k, OK: deleted[k], Size: -1, Etag: "-", Vid: "-"})
+						}
+						breqs[bi] = req
+					}(bi)
+				}
+				bwg.Wait()
+				d.reqs = append(d.reqs, breqs...)
+				co.quiesce(800 * time.Millisecond)
+			}
 			co.mu.Lock()
 			co.delay = 0
 			co.mu.Unlock()
